@@ -4,6 +4,7 @@ import Ark.Proofs.GenBridge.BookArchetype
 import Ark.Props.C04World
 import Ark.Props.C04Hist
 import Ark.Props.C06Rel
+import Ark.Props.C01Xchg
 
 namespace Ark.Props.C04
 open Ark
@@ -217,6 +218,13 @@ theorem batch_removeEntities_rel_any_order : type_of% @Ark.Props.C06Rel.removeEn
 
 /-- … at every state a history reaches -/
 theorem batch_removeEntities_after_every_history : type_of% @Ark.Props.C06Rel.removeEntities_after_every_history := @Ark.Props.C06Rel.removeEntities_after_every_history
+
+
+
+/-! ### Exchange keeps the targets consistent (Props/C01Xchg) -/
+
+/-- Exchange in a world with relations keeps the world invariant (targets zero or alive, relation index exact); kept relation components keep their targets, added ones get exactly the targets given -/
+theorem xchg_exchange_core : type_of% @Ark.Props.C01Xchg.exchange_core := @Ark.Props.C01Xchg.exchange_core
 
 
 end Ark.Props.C04
